@@ -429,6 +429,10 @@ pub struct Scenario {
     /// further (document, configuration) pairs, selected by `Op::Use`
     #[serde(default)]
     pub variants: Vec<Variant>,
+    /// execute the whole scenario twice and require identical results
+    /// (C10: "repeated calls give identical results")
+    #[serde(default)]
+    pub repeat_check: bool,
 }
 
 impl Scenario {
